@@ -49,6 +49,16 @@ func runC20(seed uint64, n int, tier string, outDir string) []*Stats {
 		cf.AddCases("pkt_in_cases", "bytes * Z * bool * value", "check_pkt", env.pktIn)
 	}
 
+	// ---- contexts and plugins on the real pkg/api
+	cenv := &ctxEnv{st: st, tmp: tmp}
+	runContexts(r, cenv, n, tier)
+	hf := NewCoqFile("From V Require Import Common.Base C20.CtxLTS C20.CtxSpec C20.PluginSpec C20.Harness.")
+	hf.AddCases("hist_cases", "list label", "check_hist", cenv.histCase)
+	hf.AddCases("trace_cases", "nat * nat * list pevent", "check_trace", cenv.traceCase)
+	if err := os.WriteFile(filepath.Join(outDir, "c20_hist_cases.v"), []byte(hf.String()), 0o644); err != nil {
+		panic(err)
+	}
+
 	st.Finish("seeded scenarios (splitmix64 from VERIF_SEED); distinct_nontrivial = distinct (kind, input) pairs")
 	if err := os.WriteFile(filepath.Join(outDir, "c20_cases.v"), []byte(cf.String()), 0o644); err != nil {
 		panic(err)
